@@ -10,7 +10,8 @@ Parallel calls, inside one `with Parallel(...)` block or not, with
     (harness/c10rt/c10_faults.py): argument unpickling, task start, mid-task, result pickling, after the result was
     sent, [thorough] while the result is being sent (watcher thread) / by timer on a 600 MB result (the F15 probe);
   * kills of idle workers between calls (with or without letting the manager thread notice first);
-  * kills from the call's input generator ("during the next call's start-up");
+  * kills from the call's input generator ("during the next call's start-up"), also with the death DETECTED while the caller is
+    still dispatching (futures pending, more submits to come);
   * way of dying: SIGKILL, SIGTERM, SIGSEGV, SIGABRT, SIGBUS, SIGUSR1, SIGHUP, the real-time signals SIGRTMIN, SIGRTMIN+1,
     SIGRTMAX-1 (the +k/-k ones have no name in signal.Signals), os._exit(3/0/1/255); victims 1..n_jobs;
     `sys.exit()` inside the worker (NOT a death: BrokenProcessPool when raised while unpickling, the task's own
@@ -19,6 +20,9 @@ Parallel calls, inside one `with Parallel(...)` block or not, with
     installed there only, no source change): after an idle worker's death the manager thread is held at one step of its
     death handling (wait..., terminate_broken, flag_as_broken, kill_workers, join_executor_internals, enter/exit) while
     the next call runs its start-up up to configure / the first submit / all submits, then released (bounded hold);
+  * a call on an executor whose workers have all LEFT by idle time-out (short `idle_worker_timeout`, the public backend
+    parameter): the next call respawns them during its `submit`; a one-batch call whose worker dies must still fail promptly
+    (F53: before the repair the error came only when ANOTHER worker's idle time-out woke the manager thread);
   * the manager thread's health: an exception escaping a thread of the scenario process is reported
     (threading.excepthook); from the executor manager thread it is a failure class of its own;
   * `_get_exitcode_name` (run by the manager thread while it builds the error message) against the model's
@@ -67,6 +71,21 @@ REQUIRED_THEOREMS = [
     "C10.no_orphan_future",
     "C10.flag_after_clear_orphans_counterexample",
     "C10.exitcode_message_never_raises",
+    # fine-grained layer: wait set, wake-up pipe, shutdown lock (sections 8-10)
+    "C10.wait_set_covers_live_workers",
+    "C10.death_wakes_manager_wait_set",
+    "C10.manager_first_hang_is_permanent",
+    "C10.wait_set_covers_live_workers_partial",
+    "C10.death_wakes_manager_wait_set_partial",
+    "C10.death_wakes_manager_single_batch_partial",
+    "C10.full_wait_set_is_manager_step",
+    "C10.manager_first_counterexample",
+    "C10.respawn_after_clean_exit_counterexample",
+    "C10.wakeup_never_writes_to_closed_pipe",
+    "C10.close_waits_for_the_writer",
+    "C10.close_unlocked_counterexample",
+    "C10.death_error_is_worker_termination",
+    "C10.abort_raises_only_worker_termination",
 ]
 TRUSTED_EXTRA = [
     "PARTIAL BY DESIGN (DESIGN C10): process death, pipes, sentinels, signals, process start-up are MODELLED, NOT VERIFIED: "
@@ -84,6 +103,21 @@ TRUSTED_EXTRA = [
     "hold of 1.2 s); C10.no_orphan_future is about the ORDER flag_as_broken -> fail-and-clear of terminate_broken (model: "
     "terminateBrokenInterleaved); the model's managerStep still runs terminate_broken as one step",
     "signal.Signals (which signal numbers have a name) is an input of getExitcodeName, read from the running interpreter",
+    "fine-grained layer (WState/wstep: wait set rebuilt at the entry of wait, wake-up pipe = counter + _closed, _shutdown_lock, submit / "
+    "shutdown statement by statement): the granularity is the model's choice (one statement = one step; _adjust_process_count spawns one "
+    "process per step; the manager's iteration after wait() returns is one step; the manager takes _shutdown_lock inside one step); "
+    "_python_exit, the weakref callback and _on_queue_feeder_error (the other callers of wakeup()) are not modelled; tied to the code by "
+    "OUTCOME of one call on a fresh executor, or on one whose workers have all left by idle time-out (the model's start state for it: one "
+    "task served, then every worker announced its exit and was reaped), (request `fine`; the variant Cfg.wakeupBeforeRespawn is chosen "
+    "by a behavioural probe of the tree under test, harness/c10rt/c10_probe.py; a worker-termination error that arrives only after "
+    "idle_worker_timeout is read as the model's `hang`: the exploration has no idle time-out event; full interleaving of caller statements / manager statements / workers for calls "
+    "of <= 4 tasks; for larger calls the workers move only once every task is submitted, the coarse explorer's assumption) and by "
+    "the `wakeup-write-held` hook events (close() entered while the caller stands between the _closed test and the write: excluded by "
+    "C10.close_waits_for_the_writer)",
+    "F53: wait_set_covers_live_workers / death_wakes_manager_wait_set are about the REPAIRED order of submit (wake-up after "
+    "_ensure_executor_running, fixes/F53-wakeup-after-respawn.diff). For the order before the repair (Cfg.preF53) only the *_partial "
+    "theorems hold (hypothesis: no worker leaves cleanly in the history) and C10.respawn_after_clean_exit_counterexample is the witness; "
+    "the oracle reports it as hang-or-late-error:worker-death-after-idle-respawn (family respawn:after-idle-timeout)",
     "the fault-injection runs tie the model to the code by OUTCOME CLASS only (exception class, executor id sequence, hang), "
     "not by event trace; racy schedules (a kill not followed by a pause) are checked by membership in the model's outcome set",
     "not modelled: Future.cancel, _on_queue_feeder_error (unpicklable task), interpreter shutdown and executor garbage collection, "
@@ -94,6 +128,8 @@ TRUSTED_EXTRA = [
 PY = core.PY
 RT = core.VERIF / "harness" / "c10rt"
 KNOWN_SIG = "hang:worker-killed-while-sending-result"
+RESPAWN_SIG = "hang-or-late-error:worker-death-after-idle-respawn"  # F53
+RESPAWN_IDLE_TIMEOUT = 6.0  # s: idle_worker_timeout of the scenarios whose workers must leave by idle time-out
 LAT_BOUND = 15.0  # s per call; fault-free calls take 0.02–0.7 s here, error paths 0.3–0.9 s
 TERMINATION_ERRORS = ("TerminatedWorkerError", "BrokenProcessPool")
 
@@ -221,7 +257,7 @@ def run_scenario(sc, scratch: Path, timeout: float):
     env["PYTHONPATH"] = str(RT) + os.pathsep + str(core.REPO)
     env["JOBLIB_TEMP_FOLDER"] = str(tmp)
     env.pop("PYTHONFAULTHANDLER", None)
-    payload = {k: sc[k] for k in ("n_jobs", "managed", "calls", "hooks") if k in sc}
+    payload = {k: sc[k] for k in ("n_jobs", "managed", "calls", "hooks", "idle_timeout") if k in sc}
     t0 = time.time()
     with open(tmp / "stderr.log", "wb") as err:
         p = subprocess.Popen([PY, "-B", str(RT / "c10_scenario.py"), json.dumps(payload)], env=env, stdout=subprocess.PIPE,
@@ -313,6 +349,17 @@ def gen_scenarios(rng, thorough):
             add("race:wakeup-vs-close", n_jobs, managed,
                 [_fault_call(rng, n_jobs, rng.choice(["mid-task", "task-start"]), rng.choice(["SIGKILL", "SIGTERM", "exit"])),
                  _clean_call(rng), _clean_call(rng)], hooks="wakeup-close")
+        # R'. F53: every worker of the executor has left by idle time-out; the next call (ONE batch) respawns them during its
+        #     submit and the worker that takes the task dies
+        for managed in (False, True):
+            n_jobs = rng.choice([2, 3])
+            inst = rng.choice(["task-start", "mid-task"])
+            f = dict(instant=inst, how=rng.choice(HOWS_TASK))
+            if inst == "mid-task":
+                f["delay"] = rng.choice([0.02, 0.1])
+            c1 = dict(n_tasks=1, faults={"0": f}, batch_size=1, pre=dict(kind="idle-timeout", max_wait=RESPAWN_IDLE_TIMEOUT + 6.0))
+            add("respawn:after-idle-timeout", n_jobs, managed, [_clean_call(rng, lo=2, hi=3), c1, _clean_call(rng)],
+                idle_timeout=RESPAWN_IDLE_TIMEOUT)
         # A'. sys.exit() inside the worker: not a death (SystemExit where the hook stands)
         for inst in SYSEXIT_CLASS_OF:
             n_jobs = rng.choice([2, 3])
@@ -355,6 +402,19 @@ def gen_scenarios(rng, thorough):
         # F. fault-free, completions out of submission order
         for managed in (False, True):
             add("baseline", rng.choice([2, 3]), managed, [_clean_call(rng, lo=4, hi=7, ooo=True), _clean_call(rng, ooo=True)])
+        # E". the death is DETECTED (manager thread given time) while the caller is still dispatching: n_jobs futures pending,
+        #     more submits to come, the input generator (consumed under Parallel's lock) pauses after the kill
+        for managed in (False, True):
+            n_jobs = rng.choice([2, 3])
+            c1 = _clean_call(rng, lo=2 * n_jobs, hi=2 * n_jobs + 2)
+            c1["startup"] = dict(at_item=n_jobs, victims=1, how=rng.choice(HOWS_EXT), settle=0.5)
+            if rng.random() < 0.5:
+                c1["pre_dispatch"] = "all"
+            add("startup:while-dispatching", n_jobs, managed, [_clean_call(rng), c1, _clean_call(rng)])
+        # A"'. a worker dying with exit status 0 while it holds a task (a death, not a graceful exit)
+        n_jobs = rng.choice([2, 3])
+        add("task:exit0-in-flight", n_jobs, rng.random() < 0.5,
+            [_fault_call(rng, n_jobs, rng.choice(["task-start", "mid-task", "result-pickle"]), "exit0", k=1), _clean_call(rng)])
     # S. placement of the caller thread against the manager thread: an idle worker dies, the manager thread is held at one
     #    step of its death handling while the NEXT call starts (configure / first submit / all submits), then goes on.
     #    Early points (flag not yet set by the code as it is): every caller point; late points: the caller ends up
@@ -399,6 +459,8 @@ def model_requests(sc, qs):
         faults = [(int(t), f) for t, f in sorted((c.get("faults") or {}).items(), key=lambda kv: int(kv[0]))
                   if f.get("instant")]
         pre, st = c.get("pre"), c.get("startup")
+        if pre and pre.get("kind") != "idle":
+            pre = None  # an idle time-out is not a kill; the coarse model has no worker leaving cleanly
         head = ["c", str(c["n_tasks"]),
                 str(pre["victims"] if pre else 0), "1" if pre and pre.get("settle", 0) >= 0.3 else "0",
                 # Parallel pulls its input n_jobs * batch_size items at a time (dispatch_one_batch); the scenarios use
@@ -491,7 +553,12 @@ def oracle(sc, r):
                 return groups[j]
         return "no-fault"
 
+    def respawn_call(i):
+        return i < n and (sc["calls"][i].get("pre") or {}).get("kind") == "idle-timeout"
+
     def sig_hang(i):
+        if respawn_call(i):
+            return RESPAWN_SIG
         fam = last_family(i)
         return KNOWN_SIG if fam in ("mid-send", "timer") else "hang:" + fam
 
@@ -521,6 +588,10 @@ def oracle(sc, r):
             elif cls not in TERMINATION_ERRORS:
                 bad.append((f"unexpected-exception:{cls}", f"call {i} raised {cls} (last fault: {last_family(i)})"))
             failures += 1
+            # F53: "prompt" — the error must not have waited for ANOTHER worker's idle time-out to wake the manager thread
+            if respawn_call(i) and sc.get("idle_timeout") and e["elapsed"] >= sc["idle_timeout"]:
+                bad.append((RESPAWN_SIG, f"call {i} (one batch, on an executor whose workers had left by idle time-out) raised {cls} only "
+                                         f"after {e['elapsed']} s >= idle_worker_timeout = {sc['idle_timeout']} s"))
         else:
             if not e.get("results_correct"):
                 bad.append(("wrong-or-partial-results", f"call {i}: n_results={e.get('n_results')} (last fault: {last_family(i)})"))
@@ -541,6 +612,88 @@ def oracle(sc, r):
 
 def _lat_bucket(x):
     return "<1s" if x < 1 else "<5s" if x < 5 else "<15s" if x <= LAT_BOUND else ">15s"
+
+
+# ----------------------------------------------------------------------------------------- fine-grained layer (wait set / lock)
+
+FINE_FAMILIES = ("task:single-batch", "race:wakeup-vs-close", "respawn:after-idle-timeout")
+FINE_MAX_TASKS = 7  # the generators' largest call; beyond 4 tasks the driver lets the workers move only once every task is submitted
+# model self-test: (cfg = managerFirst closeUnlocked wakeupBeforeRespawn, start, must be possible, must be excluded, flag)
+FINE_SELFTEST = [
+    ("0 0 0", "fresh", {"TerminatedWorkerError"}, {"hang", "OSError"}, "0"),   # the code with the repair F53
+    ("0 0 1", "fresh", {"TerminatedWorkerError"}, {"hang", "OSError"}, "0"),   # before F53, fresh executor: fine
+    ("0 0 1", "idled", {"TerminatedWorkerError", "hang"}, {"OSError"}, "0"),   # before F53, workers left by idle time-out: F53
+    ("0 0 0", "idled", {"TerminatedWorkerError"}, {"hang", "OSError"}, "0"),   # with F53
+    ("1 0 1", "fresh", {"TerminatedWorkerError", "hang"}, {"OSError"}, "0"),   # manager thread started before the workers (pre-F53 order)
+    ("0 1 0", "fresh", {"TerminatedWorkerError", "OSError"}, {"hang"}, "1"),   # close() of the wake-up pipe without the lock
+]
+_PROBE = {}
+
+
+def probe_variant():
+    """Which order `submit` of the tree under test has (`wakeup()` before / after `_ensure_executor_running()`): decided by
+    RUNNING it (harness/c10rt/c10_probe.py), not by its source text.  -> "1" (before: pre-F53) | "0" (after)."""
+    key = str(core.REPO)
+    if key not in _PROBE:
+        env = dict(os.environ)
+        env["PYTHONPATH"] = str(core.REPO)
+        p = subprocess.run([PY, "-B", str(RT / "c10_probe.py")], env=env, capture_output=True, timeout=120, start_new_session=True)
+        line = next((ln for ln in p.stdout.decode("utf8", "replace").splitlines() if ln.startswith("{")), None)
+        d = json.loads(line) if line else {}
+        if "wakeup_before_respawn" not in d:
+            raise core.InfraError(f"c10_probe failed: rc={p.returncode} {p.stdout[-300:]!r} {p.stderr[-600:]!r}")
+        _PROBE[key] = "1" if d["wakeup_before_respawn"] else "0"
+    return _PROBE[key]
+
+
+def fine_calls(sc):
+    """(index, start) of the calls of `sc` whose executor state at their start is known whatever happened before: `fresh`
+    (a brand-new executor) or `idled` (every worker has left by idle time-out) — what the `fine` request models."""
+    if sc["family"] not in FINE_FAMILIES:
+        return []
+    if sc["family"] == "respawn:after-idle-timeout":
+        idx = [(1, "idled")]
+    else:
+        idx = [(0, "fresh")]
+        if sc["family"] == "task:single-batch" and len(sc["calls"]) > 1:
+            idx.append((1, "fresh"))  # call 0 holds a fault that fails it in every schedule: call 1 gets a brand-new executor
+    return [(i, st) for i, st in idx if sc["calls"][i]["n_tasks"] <= FINE_MAX_TASKS and not sc["calls"][i].get("startup")
+            and (st == "idled" or not sc["calls"][i].get("pre"))]
+
+
+def fine_requests(sc, i, start, qs, wbr):
+    c = sc["calls"][i]
+    faults = [(int(t), f) for t, f in sorted((c.get("faults") or {}).items(), key=lambda kv: int(kv[0])) if f.get("instant")]
+    lines = []
+    for combo in itertools.product(*[classes_of(f) for _, f in faults]):
+        toks = ["fine", "0", "0", wbr, start, str(sc["n_jobs"]), str(qs), str(c["n_tasks"]), str(len(faults))]
+        toks += [x for (t, _), k in zip(faults, combo) for x in (str(t), k)]
+        lines.append(" ".join(toks))
+    return lines
+
+
+def parse_fouts(reply):
+    if not reply.startswith("fouts "):
+        raise core.InfraError(f"driver reply {reply!r}")
+    toks = reply.split(" ", 2)
+    return toks[1], {t.strip() for t in (toks[2] if len(toks) > 2 else "").split(" | ") if t.strip()}
+
+
+def impl_call_outcome(sc, r, i):
+    e = next((e for e in r["events"] if e.get("ev") == "call" and e["call"] == i), None)
+    if e is None:
+        n_done = sum(1 for e in r["events"] if e.get("ev") == "call")
+        return "hang" if (r["hang"] and i == n_done) else None
+    if e["outcome"] == "ok":
+        return "ok" if e.get("results_correct") else "wrong"
+    cls = e["outcome"][4:]
+    if cls == "SystemExit" and _raises_sysexit(sc["calls"][i]):
+        cls = "TaskError"
+    if (sc["calls"][i].get("pre") or {}).get("kind") == "idle-timeout" and sc.get("idle_timeout") and e["elapsed"] >= sc["idle_timeout"]:
+        # nothing the manager thread waited on woke it: it slept until ANOTHER worker's idle time-out (an event the exploration
+        # does not have) — the model's `hang` (manager asleep with a dead worker outside its wait set)
+        return "hang"
+    return cls
 
 
 # ----------------------------------------------------------------------------------------- the check
@@ -603,15 +756,47 @@ def _explore(ctx, scs, res, label):
         lines = model_requests(sc, qs)
         requests += lines
         owners += [sc["id"]] * len(lines)
+    n_coarse = len(requests)
+    fine_owners = []
+    wbr = probe_variant()
+    res.count("model-variant=" + ("pre-F53:wakeup-before-respawn" if wbr == "1" else "F53:wakeup-after-respawn"))
+    for sc in scs:
+        for i, start in fine_calls(sc):
+            for ln in fine_requests(sc, i, start, qs, wbr):
+                requests.append(ln)
+                fine_owners.append((sc["id"], i))
+    selftest = [f"fine {cfg} {start} 2 {qs} 1 1 0 nobytes" for cfg, start, _, _, _ in FINE_SELFTEST]
+    requests += selftest
     replies = ctx.driver().run(requests)
     predicted = {}
-    for sid, rep in zip(owners, replies):
+    for sid, rep in zip(owners, replies[:n_coarse]):
         predicted.setdefault(sid, set()).update(parse_outs(rep))
+    fine_pred = {}  # (scenario id, call index) -> (set of outcomes, flags seen)
+    for key, rep in zip(fine_owners, replies[n_coarse:n_coarse + len(fine_owners)]):
+        w, outs = parse_fouts(rep)
+        cur = fine_pred.setdefault(key, (set(), set()))
+        cur[0].update(outs)
+        cur[1].add(w)
+    # the switches of the fine layer do what the counterexample theorems say (a check of the driver, not of joblib)
+    for (cfg, start, must, mustnot, flag), rep in zip(FINE_SELFTEST, replies[n_coarse + len(fine_owners):]):
+        w, outs = parse_fouts(rep)
+        if not (must <= outs) or (mustnot & outs) or w != flag:
+            raise core.InfraError(f"fine-layer driver self-test failed for cfg {cfg} {start}: {rep!r}")
+    res.count("fine-selftest=ok")
     for sc in scs:
         r = results[sc["id"]]
         tr = impl_trace(sc, r)
         case = dict(family=sc["family"], n_jobs=sc["n_jobs"], managed=sc["managed"], calls=sc["calls"],
                     timeout=sc.get("timeout", default_to))
+        if sc.get("hooks"):
+            case["hooks"] = sc["hooks"]
+        if sc.get("idle_timeout"):
+            case["idle_timeout"] = sc["idle_timeout"]
+        waits = [e for e in r["events"] if e.get("ev") == "idle-timeout-wait"]
+        if any(not e["left"] for e in waits):
+            # the workers did not leave within the wait: the schedule's precondition (an executor with no process) is not met
+            res.count("precondition-not-met:workers-still-there")
+            continue
         surv = [e["survivors"] for e in r["events"] if e.get("survivors")]
         if surv:
             # a worker the harness signalled from outside is still running: the fault of the schedule did not happen,
@@ -631,7 +816,7 @@ def _explore(ctx, scs, res, label):
                     res.count("instant=" + f["instant"])
                     res.count("how=" + f["how"])
             for key in ("pre", "startup"):
-                if c.get(key):
+                if c.get(key) and "how" in c[key]:
                     res.count(f"{key}-how=" + c[key]["how"])
                     res.count(f"{key}-victims={c[key]['victims']}")
         for e in r["events"]:
@@ -662,6 +847,31 @@ def _explore(ctx, scs, res, label):
                 ds.append(dict(case=case, impl=" ".join(tr), model=sorted(" ".join(t) for t in pred)[:8],
                                events=[e for e in r["events"] if e.get("ev") != "start"],
                                stderr_tail=r["stderr_tail"][-1200:]))
+        # fine-grained layer: the outcome of each call that runs on a fresh executor, against the statement-by-statement model
+        for i, _start in fine_calls(sc):
+            outs, flags = fine_pred.get((sc["id"], i), (set(), set()))
+            got = impl_call_outcome(sc, r, i)
+            if got is None:
+                continue
+            if "fuel" in outs:
+                res.count("fine-tie=incomplete")
+                continue
+            res.count("fine-tie=" + sc["family"])
+            res.traces_validated += 1
+            if got not in outs:
+                res.diverge("fine-outcome", case, f"call {i}: {got}", sorted(outs))
+        if sc["family"] in FINE_FAMILIES and not fine_calls(sc):
+            res.count("fine-tie=skipped-large-call")
+        # step level: close() of the wake-up pipe entered while the caller stands between the `_closed` test and the write
+        for e in r["events"]:
+            if e.get("ev") == "wakeup-write-held":
+                res.count(f"wakeup-write-held:close_entered={e['close_entered']}")
+                res.traces_validated += 1
+                if e["close_entered"]:
+                    # the model (Cfg.code): excluded in every reachable state — C10.close_waits_for_the_writer; the `fine 0 0`
+                    # exploration answers flag 0 (checked by the self-test above)
+                    res.diverge("wakeup-step", case, "close() entered while the caller holds the lock between test and write",
+                                "excluded: close waits for _shutdown_lock")
     _sweep_shm(main_pids)
     return res
 
@@ -732,7 +942,9 @@ def run(ctx):
             _exitcode_stream(ctx, res, codes=[case["exitcode"]] if isinstance(case.get("exitcode"), int) else range(-64, 256))
             return res
         scs = [dict(id=i, family=case.get("family", "replay"), n_jobs=case["n_jobs"], managed=case["managed"],
-                    calls=case["calls"], timeout=case.get("timeout", 60)) for i in range(3)]
+                    calls=case["calls"], timeout=case.get("timeout", 60),
+                    **{k: case[k] for k in ("hooks", "idle_timeout") if case.get(k)})
+               for i in range(3)]
         return _explore(ctx, scs, res, "replay")
     corpus = []
     cdir = core.VERIF / "corpus" / "C10"
